@@ -6,7 +6,7 @@ import numpy as np
 from vlib import core, dom, rescorr
 
 ID = "C01"
-PROPS = ["C01_maxprinciple.v", "C01_relaxation.v", "C01_matrix.v", "C04_step_system.v"]
+PROPS = ["C01_maxprinciple.v", "C01_relaxation.v", "C01_matrix.v", "C04_step_system.v", "C04_acceptance.v"]
 GEN = ["reservoir"]
 TOL = 1e-9
 
@@ -104,6 +104,13 @@ def relaxation_cases(ctx, rng):
         times = np.linspace(0, 20.0, 200) if grid == "uniform" else np.array([0.0, 1e2, 1e4, 1e6, 1e8])
         cases.append(dict(kind="single", table=tb, table_kind="relax", pi=pi, pf=pf, nx=12, times=times, grid=grid, relax=True))
         cases.append(dict(kind="ideal", pi=5000.0, pf=100.0, nx=12, times=times, grid=grid, relax=True))
+    # a liquid described the simple way (pseudopressure = pressure, c ~ 3e-6 1/psi): its SCALED pseudopressure is of order 1e-6, far below
+    # any absolute solver tolerance - every clause is relative to m_i (fixed 2026-10, 223c4bf: values 5e-7 m_i below the frac-face value)
+    pw = np.linspace(500.0, 9000.0, 40)
+    tw = dict(pressure=pw, pseudopressure=pw.copy(), compressibility=3.1e-6 * (1 - 2e-5 * (pw - 500.0)), viscosity=0.3 + 2e-6 * pw, **{"z-factor": np.ones_like(pw)})
+    tw["density"] = 62.0 * np.exp(3.1e-6 * (pw - 500.0))
+    for nxw, tgw in ((30, np.linspace(0, 10, 400) ** 2), (200, np.concatenate([[0.0], np.geomspace(1e-6, 50.0, 150)]))):
+        cases.append(dict(kind="single", table=tw, table_kind="liquid with pseudopressure = pressure", pi=8000.0, pf=1000.0, nx=nxw, times=tgw, grid="tiny scaled pseudopressure"))
     # fine grids, where the iterative solver of the ideal reservoir is known to break down and the direct-solve fallback decides
     # whether the bounds survive
     for nx, grid in ((320, "quadratic"), (400, "geometric"), (512, "uniform")):
